@@ -847,3 +847,27 @@ def check_dense_conversion_exact(ix, rep, rule='R-EXACT'):
     else:
         rep.ok(rule, m.rel, f.qual, 'dense:exact-ratio', 'the conversion factor is an exact rational, the bound is rounded once', f.node.lineno)
     return max(n, 1)
+
+
+def check_set_ast_lazy(ix, rep, rule='R-CONFIG'):
+    """the specification wrappers hand the ast to an interpreter at the first evaluation (`update`, `final_update`, `evaluate`), under the guard flag,
+    and nowhere else: set_ast() of an online interpreter converts every bound with the period and the default unit in force *at that moment*.
+    Built earlier (by pastify(), by parse()), the operators do not see a set_sampling_period() / `unit = ..` that follows -- the same specification
+    configured before and after then counts its bounds differently."""
+    m = ix.module(SPEC_MOD)
+    n = 0
+    for c in m.classes.values():
+        for nm, f in c.methods.items():
+            for call in ast.walk(f.node):
+                if isinstance(call, ast.Call) and isinstance(call.func, ast.Attribute) and call.func.attr == 'set_ast' and _self_attr(call.func.value) \
+                        and call.func.value.attr.endswith('_interpreter'):
+                    n += 1
+                    rep.analysed(f)
+                    slot = '%s.set_ast<-%s.%s' % (call.func.value.attr, c.name, nm)
+                    if nm in ('update', 'final_update', 'evaluate'):
+                        rep.ok(rule, f.module.rel, f.qual, slot, 'the operators are built at the first evaluation', call.lineno)
+                    else:
+                        rep.fail(rule, f.module.rel, f.qual, slot, '%s() hands the ast to the interpreter: the operators are built, and every bound is converted, with the sampling period and '
+                                 'default unit in force now -- a set_sampling_period() or `unit = ...` that follows (legal until the first evaluation) no longer reaches them, so two '
+                                 'notations of one duration give different windows' % nm, call.lineno)
+    return n
